@@ -37,6 +37,13 @@ def boundary_scripts():
           ("reuse-local", "return zz\n"), ("reuse-fn", "return yy()\n"), ("reuse-global-decl", "global gg\nreturn gg\n")]
     S += [("import-m1", "return import(\"m1\")\n"), ("import-time-m1", "t := import(\"time\")\nm := import(\"m1\")\nreturn [t, m]\n"),
           ("import-in-fn", "f := func() { return import(\"m1\") }\nreturn f()\n")]
+    # a name already bound in some way, bound again by every form that defines names
+    for kind, decl, nm in [("global", "global g1", "g1"), ("globals4", "global (a1, b1, c1, g1)", "g1"), ("param", "param g1", "g1"), ("local", "g1 := 0", "g1"),
+                           ("const", "const g1 = 1", "g1"), ("fn", "g1 := func() { return 0 }", "g1"), ("builtin", "", "len"), ("captured", "g1 := 0\nh1 := func() { return g1 }", "g1")]:
+        for j, use in enumerate(["%s, y1 := [1, 2]\nreturn [%s, y1]", "y1, %s := [1, 2]\nreturn [%s, y1]", "for %s, v1 in [1] { return %s }\nreturn 0",
+                                 "try { throw 1 } catch %s { return %s }\nreturn 0", "f1 := func(%s) { return %s }\nreturn f1(2)",
+                                 "f1 := func() { %s, y1 := [1, 2]; return [%s, y1] }\nreturn f1()", "if true { %s, y1 := [1, 2]; return [%s, y1] }\nreturn 0"]):
+            S.append(("redef-%s-%d" % (kind, j), decl + "\n" + use % (nm, nm) + "\n"))
     S += [("rem0", "return 1 % 0\n"), ("rem00", "return 0%0\n"), ("shlneg", "return 1 << -1\n"), ("const-paren-brace", "const(}"),
           ("var-paren-brace", "var(}"), ("param-paren-brace", "param(}"), ("const-x", "const(x=1}"), ("global-paren", "global(}"),
           ("cyclic", "return import(\"c1\")\n"), ("self-import", "return import(\"s1\")\n"), ("unknown-import", "return import(\"nope\")\n")]
@@ -97,12 +104,33 @@ def run(rep, br, proofs, rng, tier):
         modsrc = ["return import(\"m%d\")\n" % ((k % L) + 1) for k in range(1, L + 1)]
         c = mk_case("cyc%d" % L, "compile", "opt", "0", "batch", hexs(b"return import(\"m1\")\n"), *[hexs(x.encode()) for x in modsrc])
         c["src"] = "cycle of length %d" % L; c["expect"] = "err"; cases.append(c)
+    # every short byte string over the lexically significant bytes (comment, string, raw string and char
+    # delimiters, escapes, CR / LF, a letter, a digit, a dot): unterminated and oddly terminated tokens
+    alpha = b"/*\r\n`\"'\\a0. "
+    lexcases = []
+    if tier == "quick":
+        for ch in alpha: lexcases.append(mk_case("lex.%02x" % ch, "lexenum", hexs(alpha), "4", hexs(bytes([ch]))))
+    else:
+        for ch in alpha:
+            for ch2 in alpha: lexcases.append(mk_case("lex.%02x%02x" % (ch, ch2), "lexenum", hexs(alpha), "4", hexs(bytes([ch, ch2]))))
     env = dict(os.environ)
     vlib.log("C05: %d cases" % len(cases))
     impl, culprits = vlib.run_impl_robust(cases, batch=250, timeout=60 if tier == "quick" else 300)
     vlib.log("C05: implementation done, %d culprits" % len(culprits))
     fails, classes = [], {}
     wfcases = []
+    leximpl, lexculprits = vlib.run_impl_robust(lexcases, batch=1, timeout=600)
+    lexcount = 0
+    for c, what in lexculprits:
+        fails.append((c, "Compile did not return on some short string with prefix %s (%s)" % (c["args"][2], what)))
+    for c in lexcases:
+        out = leximpl.get(c["id"])
+        if out is None: continue
+        sx = vlib.parse_sexp(out)
+        lexcount += int(sx[1])
+        for inp, msg in sx[3:]:
+            k = mk_case(c["id"] + ".p", "compile", "noopt", "0", "batch", inp); k["src"] = repr(vlib.unhex(inp))
+            fails.append((k, "Compile panicked on the %d-byte input %r: %s" % (len(vlib.unhex(inp)), vlib.unhex(inp), msg[:200])))
     for c, what in culprits:
         fails.append((c, "Compile did not return (%s): hang, unbounded allocation or a fatal crash" % what))
     for c in cases:
@@ -138,8 +166,8 @@ def run(rep, br, proofs, rng, tier):
         rep.violation({"property": "C05", "kind": "oracle", "why": why, "case": c["line"][:1500], "script": str(c.get("src"))[:3000]})
     okc = sum(v for k, v in classes.items() if k == "ok")
     rep.coverage.update({
-        "evaluations": len(cases), "distinct_nontrivial": len(set(c["line"].split(" ", 3)[3] for c in cases)),
-        "rule": "boundary scripts at every operand-width limit (255/256/257 locals, parameters, destructured names, 254..257 call arguments and selectors, 65535..65537 literal elements / constants, deep nesting, constant errors, unterminated declaration groups, import cycles of length 1-4, unknown imports) x optimizer off/on/budget 1/3 x trace x fresh / re-used symbol table / Eval fragment; generated valid and mutated near-valid programs; token soup and arbitrary byte strings; every successful Bytecode is checked function by function by the Coq validator wf_function; distinct = distinct (configuration, source)",
+        "evaluations": len(cases) + lexcount, "short_strings_compiled": lexcount, "distinct_nontrivial": len(set(c["line"].split(" ", 3)[3] for c in cases)),
+        "rule": "boundary scripts at every operand-width limit (255/256/257 locals, parameters, destructured names, 254..257 call arguments and selectors, 65535..65537 literal elements / constants, deep nesting, constant errors, unterminated declaration groups, import cycles of length 1-4, unknown imports) x optimizer off/on/budget 1/3 x trace x fresh / re-used symbol table / Eval fragment; generated valid and mutated near-valid programs; token soup and arbitrary byte strings; every byte string up to length %d over the 13 lexically significant bytes (/ * CR LF ` \" ' \\ a 0 . space); every successful Bytecode is checked function by function by the Coq validator wf_function; distinct = distinct (configuration, source)" % (5 if tier == "quick" else 6),
         "samples": [cases[0]["line"][:200], cases[len(cases)//2]["line"][:300], cases[-1]["line"][:200]],
         "outcome_classes": classes, "functions_validated": len(wfcases), "functions_rejected_by_validator": len(bad_wf),
         "hangs_or_crashes": len(culprits), "oracle_failures": len(fails)})
